@@ -1174,8 +1174,19 @@ def _codec_structure(ctx, rep, NUM_ALPHA, EXTRA, ENCODING, fixedc):
     diff = ("binop", "-", ("sub", g("ALPHA_NUM"), c2), ("sub", g("ALPHA_NUM"), c1))
     want = ("binop", "-", ("binop", "%", ("binop", "+", diff, ln(g("NUM_ALPHA"))), ln(g("NUM_ALPHA"))), ("const", 1))
     want2 = ("binop", "-", ("binop", "%", diff, ln(g("NUM_ALPHA"))), ("const", 1))
+    def _mod_reduce(t):
+        """(x + N) % N, (x - N) % N, (N + x) % N  ->  x % N  (Python's % is non-negative for a positive modulus)."""
+        if isinstance(t, tuple) and t and t[0] == "binop":
+            t = ("binop", t[1], _mod_reduce(t[2]), _mod_reduce(t[3]))
+            if t[1] == "%" and t[2][0] == "binop" and t[2][1] in ("+", "-"):
+                a, b = t[2][2], t[2][3]
+                if b == t[3]:
+                    return ("binop", "%", a, t[3])
+                if a == t[3] and t[2][1] == "+":
+                    return ("binop", "%", b, t[3])
+        return t
     for path in A.paths(f_gap).paths:
-        r = path.returned()
+        r = _mod_reduce(path.returned())
         rep.ob("C18.gap", "_gap", r in (want, want2) and not path.conds, "_gap(c1, c2) = %s; expected ((index(c2) - index(c1)) mod |alphabet|) - 1" % show(r), W(f_gap), key="C18.gap|_gap")
     # _gap_decode
     gp, dp = ("param", f_gd.mparams[0]), ("param", f_gd.mparams[1])
@@ -1242,6 +1253,17 @@ def _codec_structure(ctx, rep, NUM_ALPHA, EXTRA, ENCODING, fixedc):
     # juniper_decrypt
     crypt = ("param", f_dec.mparams[0])
     valid_test = ("call", ("attr", ("global", JS, "re"), "search"), (g("VALID"), crypt), ())
+    # re.match / re.fullmatch test the same thing when the pattern is anchored at the start (it is: checked by C18.valid-alphabet's parse)
+    try:
+        _valid_text = ctx.folder.module_const(JS, "VALID")
+    except Unfoldable:
+        _valid_text = None
+    if isinstance(_valid_text, str) and _valid_text.startswith("^"):
+        for path in A.paths(f_dec).paths:
+            for t, pol in path.atoms():
+                for x in subterms(t):
+                    if M.is_call(x) and x[1][0] == "attr" and x[1][1] == ("global", JS, "re") and x[1][2] in ("match", "fullmatch") and x[2] == (g("VALID"), crypt) and not x[3]:
+                        valid_test = x
     n_ret = 0
     refuse_ok = False
     for path in A.paths(f_dec).paths:
